@@ -3,8 +3,8 @@ CONSTANTS
   Repaired = TRUE
   Depth = 5
   FgChoices <- MoreFg
-  BgChoices <- MoreBg
-  AttrChoices <- MoreAttrs
+  BgChoices <- FewBg
+  AttrChoices <- FewAttrs
 INVARIANT TextSame
 INVARIANT PlainClean
 INVARIANT CodesRight
